@@ -37,7 +37,9 @@ func run(c *hlib.Ctx) {
 	w2["dupdelete"] = 4
 	w2["dupvec"] = 3
 	open := lakeh.Profile{Name: "c14-open", W: w2, MaxOps: 10}
-	lakeh.RunWitnesses(c, "C14", lakeh.Options{Prop: "C14", Determinism: 2, StopOnFail: true})
+	if c.Want("witness") {
+		lakeh.RunWitnesses(c, "C14", lakeh.Options{Prop: "C14", Determinism: 2, StopOnFail: true})
+	}
 	if c.Want("exhaustive") {
 		lakeh.RunExhaustive(c, lakeh.Options{Prop: "C14", StopOnFail: true}, nil,
 			[]string{"La", "Lb", "D1", "Da", "W", "C", "V"}, c.N(2, 3))
@@ -56,6 +58,9 @@ func run(c *hlib.Ctx) {
 			Quick:    40, Thorough: 600,
 			Parallelism: 1,
 		})
+	}
+	if !c.Want("histories") {
+		return
 	}
 	lakeh.RunPlan(c, lakeh.Plan{
 		Opt:      lakeh.Options{Prop: "C14", Determinism: 2, Reopen: true, StopOnFail: true},
